@@ -22,6 +22,16 @@ class Connection:
   def gfa(self):
     return self._gfa
 
+  def _mentions_own_name(self):
+    for k in self.__class__.REFERENCE_FIELDS:
+      value = self.get(k)
+      for item in (value if isinstance(value, list) else [value]):
+        if isinstance(item, (gfapy.OrientedLine, gfapy.Line)):
+          item = item.name
+        if isinstance(item, str) and item == str(self.name):
+          return True
+    return False
+
   def connect(self, gfa):
     """
     Connect the line to a GFA instance
@@ -48,6 +58,11 @@ class Connection:
             "Line: {}\n".format(str(self))+
             "The identifier is used by other lines "+
             "for a line of record type {}".format(previous.record_type))
+        if self._mentions_own_name():
+          # (e.g. an edge which refers to its own identifier as to a segment)
+          raise gfapy.NotUniqueError(
+            "Line: {}\n".format(str(self))+
+            "The line uses its own identifier for a line it refers to")
         try:
           return self._substitute_virtual_line(previous)
         except:
